@@ -71,6 +71,40 @@ var c20Injs = []c20Inj{
 	{name: "second-default-adjacent", lines: []string{"switch (var(Q)) {", "default:", "default:", "s", "}"}, errLine: 2},
 }
 
+// closed compounds: every loop / switch nested in every loop / switch, closed before a stray break or continue
+// (exercises the unwinding of the break and continue bookkeeping of closed constructs)
+func init() {
+	type shape struct {
+		name        string
+		open, close []string
+	}
+	outers := []shape{
+		{"while", []string{"while (flag(QA)) {"}, []string{"}"}},
+		{"dowhile", []string{"do {"}, []string{"} while (flag(QA))"}},
+		{"switch", []string{"switch (var(QA)) {", "case 1:"}, []string{"}"}},
+		{"if", []string{"if (flag(QA)) {"}, []string{"}"}},
+	}
+	inners := []shape{
+		{"while", []string{"while (flag(QB)) {", "q"}, []string{"}"}},
+		{"dowhile", []string{"do {", "q"}, []string{"} while (flag(QB))"}},
+		{"switch", []string{"switch (var(QB)) {", "case 2:", "q"}, []string{"}"}},
+		{"whileinf", []string{"while {", "q", "break"}, []string{"}"}},
+	}
+	for _, o := range outers {
+		for _, in := range inners {
+			var lines []string
+			lines = append(lines, o.open...)
+			lines = append(lines, in.open...)
+			lines = append(lines, in.close...)
+			lines = append(lines, o.close...)
+			n := len(lines)
+			c20Injs = append(c20Injs,
+				c20Inj{name: "break-after-closed-" + o.name + "-with-" + in.name, lines: append(append([]string{}, lines...), "break"), errLine: n, needBrk: true, multi: true},
+				c20Inj{name: "continue-after-closed-" + o.name + "-with-" + in.name, lines: append(append([]string{}, lines...), "continue"), errLine: n, needLoop: true, multi: true})
+		}
+	}
+}
+
 func c20Build(root c20Root, chain []int, inj c20Inj) (src string, errLine int, legal bool, ok bool) {
 	lines := []string{"const CONE = 1"}
 	lines = append(lines, root.open...)
@@ -174,7 +208,7 @@ func runC20(tier string) int {
 	r.Assume("one statement per line, so the reported start line identifies the offending construct",
 		"offending construct: the break / continue, the second case with the same value, the second default, the second const, the user text / movement statement, the label")
 	return r.Finish(r.Get("evaluations"), r.Get("nontrivial"),
-		"every nesting chain of depth <= d over {if, else, elif, while, infinite while, do...while, switch case, default, poryswitch brace / colon case} under 3 roots (script, inline map script, table inline script) x 15 injections (break / continue outside their scopes incl. after a closed loop or switch, continue not last, duplicate case value incl. via a constant and multi-token, second default) + redefined constants, text / movement names equal to generated ones, script labels equal to every generated label of the renamed program and to text labels; non-trivial = the program is ill-formed (an error is required)")
+		"every nesting chain of depth <= d over {if, else, elif, while, infinite while, do...while, switch case, default, poryswitch brace / colon case} under 3 roots (script, inline map script, table inline script) x 47 injections (break / continue outside their scopes incl. after every closed loop / switch / if that contains another loop or switch, continue not last, duplicate case value incl. via a constant and multi-token, second default) + redefined constants, text / movement names equal to generated ones, script labels equal to every generated label of the renamed program and to text labels; non-trivial = the program is ill-formed (an error is required)")
 }
 
 func c20Judge(r *harness.Run, what, src string, errLine int, res comp.Result, opt bool, sw map[string]string) {
